@@ -17,6 +17,7 @@ type Env struct {
 	header *ssa.BasicBlock
 	noLocals bool
 	inOld    bool
+	asGoal   bool // the clause is being proved (not assumed): existentials may use their witness hints
 	wantCur  bool
 	at       ssa.Instruction // program point of the clause (for source-level locals)
 	qOff     map[string]map[string]bool // quantified variable term -> slice offsets it is added to
@@ -338,6 +339,43 @@ func (v *Env) eval(x Expr) *Val {
 				return r
 			}
 			panic("contract: no call site " + ts.S + " before this point")
+		case "keylt":
+			// keylt(a, b): the order sort keys are compared by: strlt on strings, < on numbers
+			a, b := v.eval(x.Args[0]), v.eval(x.Args[1])
+			if isString(a.typ) {
+				return &Val{typ: tBool, c: []string{e.strlt(a.c[0], b.c[0])}}
+			}
+			return &Val{typ: tBool, c: []string{e.numLess(a, b)}}
+		case "strlt":
+			a, b := v.eval(x.Args[0]), v.eval(x.Args[1])
+			return &Val{typ: tBool, c: []string{e.strlt(a.c[0], b.c[0])}}
+		case "apply":
+			// apply("pkg.Struct.field", fn, args...): the result of calling a pure function-typed field
+			ts, ok := x.Args[0].(*EStr)
+			if !ok || !e.db.pureFields[ts.S] {
+				panic("contract: apply(\"pkg.Struct.field\", fn, args...) needs a declared pure field")
+			}
+			var as []*Val
+			for _, a := range x.Args[1:] {
+				as = append(as, v.eval(a))
+			}
+			sig, ok := as[0].typ.Underlying().(*types.Signature)
+			if !ok {
+				panic("contract: apply on a non-function")
+			}
+			var rt types.Type = sig.Results()
+			if sig.Results().Len() == 1 {
+				rt = sig.Results().At(0).Type()
+			}
+			return e.ufTerm("field."+ts.S, as, rt)
+		case "implements":
+			a := v.eval(x.Args[0])
+			ts, ok := x.Args[1].(*EStr)
+			if !ok {
+				panic("contract: implements(x, \"pkg.Iface\")")
+			}
+			f := e.declareFun("implements!"+ts.S, "(Int) Bool")
+			return &Val{typ: tBool, c: []string{and(not(eq(a.c[0], "0")), app(f, a.c[0]))}}
 		case "hdr":
 			// hdr(h, "Key"): what h.Get("Key") returns in this state
 			h, k := v.eval(x.Args[0]), v.eval(x.Args[1])
@@ -454,6 +492,29 @@ func (v *Env) eval(x Expr) *Val {
 		}
 		return &Val{typ: tInt, c: []string{app("-", a.c[0])}}
 	case *EExists:
+		if x.Sort == "Int" && x.Witness != nil && v.asGoal {
+			// proving an existential with a supplied witness: prove the body for that witness (stronger, hence sound)
+			w := v.eval(x.Witness)
+			inner := *v
+			inner.bound = map[string]string{}
+			for k, t := range v.bound {
+				inner.bound[k] = t
+			}
+			inner.bound[x.Var] = w.c[0]
+			return &Val{typ: tBool, c: []string{inner.formula(x.Body)}}
+		}
+		if x.Sort == "Int" {
+			inner := *v
+			inner.bound = map[string]string{}
+			for k, t := range v.bound {
+				inner.bound[k] = t
+			}
+			e.n++
+			bv := fmt.Sprintf("x%d!%s", e.n, x.Var)
+			inner.bound[x.Var] = bv
+			body := inner.formula(x.Body)
+			return &Val{typ: tBool, c: []string{fmt.Sprintf("(exists ((%s Int)) %s)", bv, body)}}
+		}
 		inner := *v
 		inner.vars = map[string]*Val{}
 		for k, val := range v.vars {
